@@ -59,6 +59,23 @@ CLAIMS = {
          "DESIGN.md §4 C20"),
 }
 
+
+EXTRA = {  # rules added after seeded changes were missed (DESIGN.md §11/§12); appended to technique and text
+ "C01": ("scanner-state must-assign dataflow (G2), capacity-hint use check (T1g)", "a reused scanner publishes every field for every row (G2); GeomLength only sizes allocations (T1g)"),
+ "C02": ("make-then-append lint (L4), points-to no-write analysis of the Marshal methods (B1)", "no slice made with a length is then appended to (L4); Marshal methods do not write the value they encode (B1)"),
+ "C03": ("protobuf field/accessor table (T6), plural-method delegation (D4b), no early exit from effectful member loops (D5)", "decoder accessors fit the wire and Go type of each vectortile field (T6); Layers methods delegate per layer (D4b); feature loops do not break out early (D5)"),
+ "C05": ("quadratic-copy lint (E3), decoded-non-nil postcondition (A-post), unit-level decoder entries", "no accumulator is re-copied per iteration (E3); a successful WKB decode never returns a typed nil (A-post)"),
+ "C06": ("Equal same-kind check (K4)", "orb.Equal compares g1.(K) only with g2.(K) (K4)"),
+ "C08": ("box-intersection table (T11)", "clip.Bound is max-of-mins / min-of-maxes of both operands on both axes (T11)"),
+ "C12": ("area-flag sibling table (T12), compaction-index lint (H7)", "rings are simplified with area=true and lines with area=false (T12); kept rings/polygons are stored at the write counter (H7)"),
+ "C14": ("range-grow lint (L5)", "no loop appends to the slice it ranges over (L5)"),
+ "C15": ("plural-method delegation (D4b)", "Layers.ProjectTo* call the per-layer method, the projected bound is the box of the two corners (H3)"),
+ "C16": ("endpoint-order table (T8b), compaction-index lint (H7)", "sortableEndpoints.Less orders each side along its varying axis counter-clockwise with an identical tie-break (T8b)"),
+ "C17": ("interval enumeration with postcondition (A-post)", "a non-positive interval returns nil (A-post)"),
+ "C18": ("bound-as-polygon check (K5)", "every generic measure handles a Bound through ToRing()/ToPolygon() (K5)"),
+ "C20": ("bound-as-polygon (K5), compaction-index (H7), make-then-append (L4), range-grow (L5) lints", "Bound arms of measures/encoders delegate to the polygon form (K5)"),
+}
+
 NOT_APPLICABLE = [
  ("C09", "numerical case analysis of ray casting at degenerate alignments; no shape-level clause is a non-trivial necessary condition (DESIGN.md §5)"),
  ("C13", "bit-trick identities over a 2^64 tile space and float-to-tile mapping at domain edges; needs bit-vector solving or execution, outside static analysis (DESIGN.md §5)"),
@@ -76,6 +93,9 @@ PENDING = {  # properties whose checks are still being built; listed as not appl
 checks = []
 for pid in sorted(CLAIMS):
     tech, text, ref = CLAIMS[pid]
+    if pid in EXTRA:
+        tech = tech + ", " + EXTRA[pid][0]
+        text = text.replace(" NOT decided", "; also: " + EXTRA[pid][1] + ". NOT decided", 1) if " NOT decided" in text else text + " Also: " + EXTRA[pid][1] + "."
     checks.append({
         "property_id": pid,
         "quick_cmd": "./run.sh %s quick" % pid,
